@@ -401,6 +401,49 @@ func noRootRules() lexer.Rules {
 	}}
 }
 
+// diamondIncludeRules: one state receives the same included state twice, directly and through two
+// other includes (Root -> {Expr, Stmt} -> Common, and Common once more).
+func diamondIncludeRules() lexer.Rules {
+	return lexer.Rules{
+		"Root": {
+			lexer.Include("Expr"),
+			lexer.Include("Stmt"),
+			lexer.Include("Common"),
+		},
+		"Expr": {
+			{Name: "Num", Pattern: `\d+`},
+			lexer.Include("Common"),
+		},
+		"Stmt": {
+			{Name: "Open", Pattern: `{`, Action: lexer.Push("Block")},
+			lexer.Include("Common"),
+		},
+		"Block": {
+			{Name: "Close", Pattern: `}`, Action: lexer.Pop()},
+			lexer.Include("Stmt"),
+			lexer.Include("Expr"),
+		},
+		"Common": {
+			{Name: "Ident", Pattern: `[a-z]+`},
+			{Name: "space", Pattern: `\s+`},
+		},
+	}
+}
+
+// unicodeClassRules: large Unicode classes (tables of ranges) next to each other.
+func unicodeClassRules() lexer.Rules {
+	return lexer.Rules{"Root": {
+		{Name: "Greek", Pattern: `\p{Greek}+`},
+		{Name: "Han", Pattern: `\p{Han}+`},
+		{Name: "Cyrillic", Pattern: `\p{Cyrillic}+`},
+		{Name: "Upper", Pattern: `\p{Lu}\pL*`},
+		{Name: "Letter", Pattern: `\pL+`},
+		{Name: "Num", Pattern: `\pN+`},
+		{Name: "space", Pattern: `\s+`},
+		{Name: "Punct", Pattern: `[[:punct:]]`},
+	}}
+}
+
 // pointerActionRules: actions given as pointers (&lexer.ActionPush{...}), as rule maps assembled by
 // a program often carry them; *ActionPush and *ActionPop implement lexer.Action like the values
 // lexer.Push and lexer.Pop return.  The patterns of these rules can match the empty string.
@@ -490,6 +533,10 @@ var coreLexDefs = []*lexDef{
 		corpus: []string{"a r\"raw text\" b", "a <t> b t c", "r\"", "<x>", "a b", ""}},
 	{name: "no-root", rules: noRootRules, build: func() lexer.Definition { return mustRules(noRootRules()) },
 		corpus: []string{"a b", " ", ""}},
+	{name: "diamond-include", rules: diamondIncludeRules, genName: "DiamondInclude", build: func() lexer.Definition { return mustRules(diamondIncludeRules()) },
+		corpus: []string{"a 1 { b 2 { c } } d", "a ! b", "{ a ? }", "{ 1 2", "}", "A", ""}},
+	{name: "unicode-classes", rules: unicodeClassRules, genName: "UnicodeClasses", build: func() lexer.Definition { return mustRules(unicodeClassRules()) },
+		corpus: []string{"\u03b1\u03b2\u03b3 \u6f22\u5b57 abc \u0416\u0443\u043a 42 \u0664\u0662, Xyz!", "\u03b1\U0001F600\u03b2", "\U0001F600", "\u03b1\U0010FFFF \u6f22\U000E0001", "\u1fff\u2000\u03b1\uffff", "abc\u00a0\u03c9\u0301", ""}},
 	{name: "pointer-actions", rules: pointerActionRules, build: func() lexer.Definition { return mustRules(pointerActionRules()) },
 		corpus: []string{"a (b c) d\n", "a ((b #todo: c)) d", "a ! b", "(a , b)", "(a #x: ! b)", "((a)", "foo\n) bar", ""}},
 	{name: "basic-runtime", build: basicRuntimeDef, genName: "",
